@@ -23,11 +23,23 @@ def __pc(f):
     def pcnpc(i, fmap):
         fmap[pc] = fmap[pc] + i.length//2
         if len(fmap.conds) > 0:
+            # the previous instruction was a CPSE/SBRC/SBRS that has left its
+            # skip condition: this one has no effect if the condition holds
             cond = fmap.conds.pop()
             m = mapper()
             f(i, m)
+            # the effects of this instruction alone are in m; they are first
+            # evaluated in the current state (a memory location is yielded as
+            # a pointer), then merged with the values to keep if skipped:
+            updates = []
             for l, v in m:
-                fmap[l] = tst(cond, v, fmap(l))
+                if l._is_ptr:
+                    loc, old = fmap(l), fmap(mem(l, v.size))
+                else:
+                    loc, old = l, fmap(l)
+                updates.append((loc, tst(cond, old, fmap(v))))
+            for loc, v in updates:
+                fmap[loc] = v
         else:
             f(i, fmap)
 
@@ -178,19 +190,19 @@ def i_CP(i, fmap):
 @__pc
 def i_CPSE(i, fmap):
     rd, rr = i.operands
-    fmap.conds[fmap(rd == rr)]
+    fmap.conds.append(fmap(rd == rr))
 
 
 @__pc
 def i_SBRC(i, fmap):
     b = i.operands[0]
-    fmap.conds[fmap(b == bit0)]
+    fmap.conds.append(fmap(b == bit0))
 
 
 @__pc
 def i_SBRS(i, fmap):
     b = i.operands[0]
-    fmap.conds[fmap(b == bit1)]
+    fmap.conds.append(fmap(b == bit1))
 
 
 @__pc
